@@ -154,7 +154,7 @@ def run(ctx, prog):
                         else:
                             kind = None
                             r += '  (no dominating tokens ≥ 1.0 guard; guards seen: %s)' % g
-                    ctx.inst('C19.R1', b.short, 'write of tokens #%d' % sum(1 for x in ctx.instances if x['rule'] == 'C19.R1' and x['key'].startswith('C19.R1 | %s | write' % b.short)),
+                    ctx.inst('C19.R1', b.short, 'write of tokens #%d' % sum(1 for x in ctx.instances if x.get('config') == ctx.config and x['rule'] == 'C19.R1' and x['key'].startswith('C19.R1 | %s | write' % b.short)),
                              kind is not None, 'tokens = %s  [%s]' % (r, kind or 'UNCLASSIFIED: an uncapped or unguarded write lets admitted traffic exceed the bound'))
                 elif rv['k'] == 'agg' and rv.get('adt', '').endswith('rate_limiter::TokenBucket'):
                     n_w += 1
@@ -400,7 +400,7 @@ def run(ctx, prog):
                 if cyc:
                     r1 = b.reach(b.succ(c.bb), avoid_edges=e_succ)
                     per_item = not any(y in r1 and c.bb in b.reach([y], avoid_edges=e_succ) for y in yields)
-                idx = sum(1 for x in ctx.instances if x['rule'] == 'C19.R3' and x['key'].startswith('C19.R3 | rpc %s | %s' % (h, nm)))
+                idx = sum(1 for x in ctx.instances if x.get('config') == ctx.config and x['rule'] == 'C19.R3' and x['key'].startswith('C19.R3 | rpc %s | %s' % (h, nm)))
                 ctx.inst('C19.R3', 'rpc ' + h, '%s #%d behind the limiter' % (nm, idx), dom and per_item,
                          '%s at %s: dominated by a limiter success: %s; in a stream loop: %s; a limiter success between two executions: %s' % (nm, c.loc, dom, cyc, per_item))
         if not found_enforce:
